@@ -59,6 +59,7 @@ func vhsrvRunFixedOpt(reqs []vhsrvReq, seed int64, wga bool) vhsrvHist {
 	w.timeout = 6 * time.Second
 	h := vhsrvHist{Kind: "hist", Steps: []vhsrvStep{}}
 	defer func() { w.close(); w.finish(&h) }()
+	probing := false
 	for _, q := range reqs {
 		if q.N == nil {
 			q.N = []uint64{}
@@ -80,7 +81,12 @@ func vhsrvRunFixedOpt(reqs []vhsrvReq, seed int64, wga bool) vhsrvHist {
 			h.Broken = fmt.Sprintf("%v on request %+v", err, q)
 			return h
 		}
-		h.Steps = append(h.Steps, st)
+		if !probing {
+			h.Steps = append(h.Steps, st)
+		}
+		if st.Reduced {
+			probing = true // the model cannot follow; the remaining requests only probe for a reply
+		}
 	}
 	return h
 }
